@@ -142,13 +142,12 @@ void harness(void) {
   int read_len = -1;
   cur = 0;
   int rc = __CPROVER_file_local_parser_c_str_to_instr(&ins, raw1, &read_len);
-  CHECK(read_len >= 0 && read_len <= NMAX + 1, "the consumed length stays inside the text");
+  if (rc == EXIT_SUCCESS) CHECK(read_len >= 0 && read_len <= NMAX + 1, "the consumed length stays inside the text");
 #ifdef MODE_NONPRINT
   CHECK(rc != EXIT_SUCCESS, "a line containing a byte outside printable ASCII is rejected");
   CHECK(!rec_called[0], "no instruction is looked up for that line");
 #else
-  (void)rc;
-  CHECK(read_len >= 1 || raw1[0] == 0, "progress: at least one character is consumed from a non-empty text");
+  if (rc == EXIT_SUCCESS) CHECK(read_len >= 1 || raw1[0] == 0, "progress: at least one character is consumed from a non-empty text");
 #endif
 #else
   uint8_t out[4096]; int n;
